@@ -2,7 +2,7 @@
   C01Strict — add, sub, mul, div are correctly rounded: the strict, outcome-determining forms, and what an
   `ok` verdict of the judge on one of these operations *means* in IEEE terms.
 
-  `C01Q` states correct rounding with the clause `FinishSpec`, which (see `FinishSpec_not_unique`) admits a
+  `C01Q` states correct rounding with the clause `FinishSpec`, which (see `FinishSpec_not_unique`) allows a
   spurious second outcome in one corner of its inexact case.  `FinishSpecStrict`
   (`DecProofs.Core.FinishUnique`) is single-valued, so here each operation is *characterised*:
 
@@ -26,6 +26,20 @@ theorem strict_unique {mode : Mode} {V : ℚ} {pref : Int} (hV : V ≠ 0) {out o
     (h : FinishSpecStrict mode (decide (V < 0)) |V| pref out)
     (h' : FinishSpecStrict mode (decide (V < 0)) |V| pref out') : out = out' :=
   FinishSpecStrict_unique (abs_pos.mpr hV) h h'
+
+/-- **Exactly one outcome**: for every positive rational magnitude `v`, every sign, rounding mode and preferred
+exponent, the strict delivery clause has one and only one solution (the value `finish` computes on any
+fraction representing `v`).  So "the `(r, f)` satisfying `FinishSpecStrict …`" below denotes. -/
+theorem strict_exists_unique (mode : Mode) (neg : Bool) {v : ℚ} (hv : 0 < v) (pref : Int) :
+    ∃ out, FinishSpecStrict mode neg v pref out ∧ ∀ out', FinishSpecStrict mode neg v pref out' → out' = out := by
+  have hn : 0 < v.num := Rat.num_pos.mpr hv
+  have hnq : (0 : ℚ) < (v.num : ℚ) := by exact_mod_cast hn
+  have e : ((v.num.natAbs : Nat) : ℚ) / ((v.den : Nat) : ℚ) * (10 : ℚ) ^ (0 : ℤ) = v := by
+    rw [zpow_zero, mul_one, Nat.cast_natAbs, Int.cast_abs, abs_of_pos hnq]
+    exact Rat.num_div_den v
+  have h := finish_spec_strict mode neg v.num.natAbs v.den 0 pref (by omega) v.den_pos
+  rw [e] at h
+  exact ⟨_, h, fun out' h' => FinishSpecStrict_unique hv h' h⟩
 
 /-! ### addition / subtraction -/
 
